@@ -13,6 +13,7 @@ is diagnosed exactly once, at the shifted position, inside every context and com
 from __future__ import annotations
 
 import json
+import subprocess
 import re
 from collections import Counter
 from concurrent.futures import ThreadPoolExecutor
@@ -161,6 +162,31 @@ def build_cases(rng, quick: bool) -> list[dict[str, Any]]:
     return ok
 
 
+TAIL_WORKER = r"""
+import json, sys
+import refurb.main as rmain
+from refurb.error import Error
+from refurb.settings import Settings
+
+out_path, files = sys.argv[1], sys.argv[2:]
+raw_kept = []
+real = rmain.should_ignore_error
+
+
+def recording(error, settings):
+    ignored = real(error, settings)
+    if isinstance(error, Error) and not ignored:
+        raw_kept.append([error.filename, error.line, error.column, f"{error.prefix}{error.code}", error.msg])
+    return ignored
+
+
+rmain.should_ignore_error = recording
+errs = rmain.run_refurb(Settings(files=files, enable_all=True, quiet=True))
+report = [[e.filename, e.line, e.column, f"{e.prefix}{e.code}", e.msg] for e in errs if isinstance(e, Error)]
+json.dump({"raw_kept": raw_kept, "report": report, "text": [e for e in errs if isinstance(e, str)]}, open(out_path, "w"))
+"""
+
+
 def lint_files(d: Path, names: list[str]) -> dict[str, list[dict[str, Any]]]:
     """--enable-all over batches of files (fresh processes, 16 at a time)"""
     nb = min(16, max(1, len(names) // 6))
@@ -247,6 +273,35 @@ def run(ctx) -> None:
         if files:
             res.sample({"context_chain": files[0][1][5][0]["chain"], "source": locate(files[0][1][5][0]["src"])[0]})
             res.sample({"context_chain": files[-1][1][-1][0]["chain"], "source": locate(files[-1][1][-1][0]["src"])[0]})
+
+        # ---------------------------------------------------------------- nothing is lost between the checks and the report
+        # "once and only once" also has to survive the tail of run_refurb (filter, sort): every diagnostic a check appended (and
+        # that no comment / amend entry silences) is in the returned report exactly as often as it was appended — in particular two
+        # occurrences of a construct that START AT THE SAME PLACE (a construct nested in itself along its left spine) are two
+        (d / "nest_self.py").write_text(
+            PRELUDE
+            + "_n1 = lst[:][:]\n_n2 = lst[:][:][:]\n_n3 = name.lstrip().rstrip().lstrip().rstrip()\n_n4 = sorted(sorted(lst)[0:1])[0]\n"
+            + "_n5 = list(lst)[:][:]\n_n6 = [list(lst)[:] for _q in [lst[:][:]]][:][:]\n_n7 = name.strip().lstrip().rstrip().lstrip()\n"
+        )
+        tail_files = ["nest_self.py"] + [n for n, _ in files][: (4 if ctx.quick else 40)]
+        (d / "_tail_worker.py").write_text(TAIL_WORKER)
+        tp = subprocess.run([core.PY, "_tail_worker.py", "_tail.json", *tail_files], cwd=d, capture_output=True, text=True, timeout=900, env=core.py_env())
+        if tp.returncode != 0:
+            raise RuntimeError("tail worker failed: " + tp.stderr[-1500:])
+        tail = json.loads((d / "_tail.json").read_text())
+        raw_c, got_c = Counter(map(tuple, tail["raw_kept"])), Counter(map(tuple, tail["report"]))
+        res.bump("tail_raw_diagnostics", sum(raw_c.values()))
+        res.bump("tail_same_place_same_code", sum(1 for k, n in Counter((k[0], k[1], k[2], k[3]) for k in raw_c.elements()).items() if n > 1))
+        res.case(("tail", tuple(tail_files)))
+        if raw_c != got_c:
+            lost = list((raw_c - got_c).elements())[:4]
+            extra = list((got_c - raw_c).elements())[:4]
+            res.violate(
+                f"run_refurb's report is not the diagnostics the checks appended: {sum((raw_c - got_c).values())} lost, {sum((got_c - raw_c).values())} added (e.g. lost {lost[:1]})",
+                {"kind": "report-tail", "lost": bool(lost), "added": bool(extra)},
+                {"file": "nest_self.py = harness/props/c04.py:PRELUDE + " + repr((d / "nest_self.py").read_text()[len(PRELUDE):]), "lost": lost, "added": extra,
+                 "how": "refurb.main.run_refurb(Settings(files=[...], enable_all=True)) with refurb.main.should_ignore_error wrapped to record every error it is asked about and keeps; compare with the returned list as multisets of (file, line, column, code, message)"},
+            )
 
         # ---------------------------------------------------------------- identity probe + model walk
         corpus = extract_c04.probe_corpus()
